@@ -224,7 +224,7 @@ Qed.
 (* C06, second sentence.  [good]: the intact frames before the damaged one (a valid stream:
    optional header, then data blocks); [bad]: a frame with one of the enumerated damages, seen
    with the bytes that are left when the reader gets there; [rest]: anything. *)
-Theorem damage_detected : forall good bad rest avail,
+Theorem damage_detected : forall (good : list (frame T)) bad rest avail,
   valid_file good = true ->
   damaged (match good with [] => true | _ => false end) bad (avail - total_size good) = true ->
   scan current (good ++ bad :: rest) avail = Result (spec_deliveries good) Failed.
